@@ -554,6 +554,40 @@ def matrix_cases(prefix, kinds, rng=None, two_path=True, c01_domain=False, root_
     return cases
 
 
+def odd_join_cases(prefix, kinds):
+    """join arguments spelled oddly (doubled leading slashes, './', inner '//', '..' that climbs to the root and back)
+    through an altroot whose underlying filesystem holds a file of the same name OUTSIDE the altroot's directory: every
+    call must resolve inside"""
+    rng = random.Random(59)
+    cases = []
+    args = ["//secret.txt", "///secret.txt", "/./secret.txt", "//./secret.txt", "..//secret.txt", "../../secret.txt",
+            "//d//f", "//d/../secret.txt", "/d/..//secret.txt"]
+    for kind in kinds:
+        c = vfx.Case("%s_oddjoin_%s" % (prefix, kind))
+        g = build_config(c, kind, rng)
+        c.cfg = g
+        t = g.target
+        _matrix_setup(c, t)
+        if g.alt_under:
+            u, _P = g.alt_under
+            write_file(c, u, "secret.txt", b"outside the altroot")
+        c.op("snap", t)
+        c.first_snap = c.nops - 1
+        for a in args:
+            sp = "%d:j%s" % (t, vfx.hexs(a))
+            c.op("asstr", sp); c.op("exists", sp); c.op("readtostring", sp); c.op("metadata", sp)
+        for a in ("//secret.txt", "//d//new"):
+            sp = "%d:j%s" % (t, vfx.hexs(a))
+            h = c.op("createfile", sp); c.op("hwrite", h, vfx.hexs(b"inside")); c.op("hdrop", h)
+            c.op("removefile", sp)
+        c.op("createdir", "%d:j%s" % (t, vfx.hexs("//nd")))
+        c.op("snap", t)
+        for w in g.watch:
+            c.op("snap", w)
+        cases.append(c)
+    return cases
+
+
 def type_conflict_cases(prefix):
     """layers whose contents CONFLICT in type: a file /x in an upper layer over a directory /x with children in a layer
     below it.  The overlay then shows /x as a file and still resolves /x/c below it (finding D31)"""
